@@ -566,6 +566,8 @@ def precpass(chk, fx):
 class ConfHooks(fdi.Hooks):
     """Item class decides the two data-dependent tests of the loop; solve_conflict forks into {shift, reduce}."""
 
+    _T = None
+
     def __init__(self, item, shift_v, reduce_v, track):
         self.item = item
         self.shift_v, self.reduce_v = shift_v, reduce_v
@@ -598,6 +600,31 @@ class ConfHooks(fdi.Hooks):
             return [self.shift_v, self.reduce_v]
         return None
 
+    def aggregate_assign(self, rhs, st):
+        """entry = parse_table_entry{kind, arg[, flag]}: every field is (re)initialised, absent ones to their defaults."""
+        r = strip(rhs, casts=True)
+        il = None
+        for m in walk(r):
+            if m.get("k") == "InitListExpr":
+                il = m
+                break
+        if il is None or not self.facts_T(il).endswith("parse_table_entry"):
+            return None
+        vals = il.get("c") or []
+        s2 = dict(st)
+        keys = [("f", P + "parse_table_entry::kind"), ("f", P + "parse_table_entry::arg"),
+                ("f", P + "parse_table_entry::has_sr_conflict")]
+        defaults = [0, 65535, 0]
+        for i, k in enumerate(keys):
+            if i < len(vals) and vals[i] is not None and vals[i].get("k") not in ("CXXDefaultInitExpr", "ImplicitValueInitExpr"):
+                s2[k] = fdi.evaluate(AI.term(vals[i]), st, self)
+            else:
+                s2[k] = defaults[i]
+        return s2
+
+    def facts_T(self, node):
+        return self._T(node.get("t")) if self._T else ""
+
 
 def conf(chk, fx, enums):
     chk.rule("CONF", "abstract (state, item-history) outcomes of the conflict detection in transitions()", 6)
@@ -627,6 +654,7 @@ def conf(chk, fx, enums):
         li = body.index(loop)
         pre, post = body[:li], body[li + 1:]
         track = {KIND, FLAG, ARG}
+        ConfHooks._T = staticmethod(f.facts.T)
         hooks0 = ConfHooks("shift", kv["shift"], kv["reduce"], track)
         # initial state: default member initialisers of the entry + the declarations before the loop
         init = {KIND: kv["error"], FLAG: 0, ARG: 65535}
